@@ -97,3 +97,10 @@ Example C01_mixed_fragment_example :
   [THeadingStart 2; TText [97%N]; THTMLEntityStart; TText [97; 109; 112]%N; THTMLEntityEnd; THeadingEnd; TText [10%N];
    THTMLEntityStart; THTMLEntityNumeric; TText [52; 49]%N; THTMLEntityEnd; TText [61; 61; 120]%N].
 Proof. vm_compute. reflexivity. Qed.
+
+(* Non-vacuity with a comment: "==a<!--\n==-->b==" - the comment hides a newline and an '=' run inside a heading title *)
+Example C01_mixed_fragment_comment_example :
+  mfrag_tokens [10; 33; 35; 38; 45; 59; 60; 61; 62]%N [[97; 109; 112]%N] 8 100
+    [61; 61; 97; 60; 33; 45; 45; 10; 61; 61; 45; 45; 62; 98; 61; 61]%N =
+  [THeadingStart 2; TText [97%N]; TCommentStart; TText [10; 61; 61]%N; TCommentEnd; TText [98%N]; THeadingEnd].
+Proof. vm_compute. reflexivity. Qed.
